@@ -177,17 +177,18 @@ def dimension_forms(idx, n, m):
     return True
 
 
-NEG = [-1, -2, -2 ** 31, -5]
+NEG = [('-1', -1), ('-2', -2), ('-2147483648', -2 ** 31), ('-0xA', -10), ('-0x80000000', -2 ** 31), ('0x7F', 127), ('-0b101', -5), ('12', 12)]
 
 
 def negative_enum_value(sel):
-    """isar converts a negative enumerator to its unsigned 32-bit image (checked on concrete values only: string formatting)"""
+    """isar converts a negative enumerator (decimal or based literal) to its unsigned 32-bit image and leaves the
+    others alone (checked on concrete texts only: string formatting)"""
     from prophyc.parsers import isar
-    v = NEG[sel]
+    text, v = NEG[sel]
     e = ET.Element('enum', {'name': 'E'})
-    ET.SubElement(e, 'enum-member', {'name': 'E_A', 'value': str(v)})
+    ET.SubElement(e, 'enum-member', {'name': 'E_A', 'value': text})
     node = isar.make_enum(e)
-    return int(node.members[0].value, 0) == v + 2 ** 32
+    return int(node.members[0].value, 0) == (v + 2 ** 32 if v < 0 else v)
 
 
 # ------------------------------------------------------------------------------------------------ C16 (i)
